@@ -373,6 +373,10 @@ def run(ctx):
             me = ('var', l, gi.local_name(l))
             upd = [v for v in vals if v[0] == 'call' and short(v[1]) in ('max', 'min') and 'f64' in v[1] and len(v[2]) == 2 and any(strip_refs(a) == me for a in v[2])]
             if len(upd) != 1:
+                calls = [v for v in vals if v[0] == 'call' and short(v[1]) in ('max', 'min') and 'f64' in v[1] and len(v[2]) == 2]
+                if not upd and len(calls) == 1 and len(vals) == 2 and any(strip_refs(a)[0] == 'var' and len(gi.defs.get(strip_refs(a)[1], [])) > 1 for a in calls[0][2]):
+                    # updated from *another* running extreme instead of its own previous value
+                    return ('not-own:' + short(calls[0][1]), facts.show(calls[0]))
                 return None
             other = [a for a in upd[0][2] if strip_refs(a) != me]
             return (short(upd[0][1]), facts.show(norm(other[0]))) if other else None
